@@ -625,11 +625,14 @@ func syntheticRsaPub(bits, e int) (crypto.PubKey, []byte, error) {
 func c16RsaSub() *engine.Sub {
 	return &engine.Sub{
 		Name:  "rsa-keys-of-every-size",
-		Rule:  "RSA public keys with a modulus of 2048, 2056, 3072, 4096, 6144, 8184 and 8192 bits (libp2p accepts 2048..8192) and exponents 3 and 65537, built from a synthetic modulus: FromPubKey -> String (= independently computed did:key of the PKCS#1 encoding) -> Parse -> equal DID -> PubKey -> Equals(original) -> ToPubKey; identifiers of up to ~1.5 k characters; non-trivial = all",
-		Bound: func(string) string { return "7 modulus sizes x 2 exponents" },
+		Rule:  "RSA public keys with a modulus of 2048, 2056, 3072, 4096, 6144, 8184 and 8192 bits (libp2p accepts 2048..8192) and exponents 3 and 65537 (for 2048 and 4096 bits also exponents on both sides of every byte-length boundary: 127..129, 255..257, 32767, 32768, 65535, 2^24-1, 2^24, 2^31-1), built from a synthetic modulus: FromPubKey -> String (= independently computed did:key of the PKCS#1 encoding) -> Parse -> equal DID -> PubKey -> Equals(original) -> ToPubKey; identifiers of up to ~1.5 k characters; non-trivial = all",
+		Bound: func(string) string { return "7 modulus sizes x 2 exponents + 2 sizes x 14 further exponents" },
 		Gen: func(tier string, emit func(any) bool) {
 			for _, bits := range []int{2048, 2056, 3072, 4096, 6144, 8184, 8192} {
-				for _, e := range []int{3, 65537} {
+				for _, e := range []int{3, 5, 17, 127, 128, 129, 255, 256, 257, 32767, 32768, 65535, 65537, 1<<24 - 1, 1 << 24, 1<<31 - 1} {
+					if bits != 2048 && bits != 4096 && e != 3 && e != 65537 {
+						continue
+					}
 					if !emit(&c16RsaCase{Bits: bits, E: e}) {
 						return
 					}
@@ -752,11 +755,114 @@ func c16KeptSub() *engine.Sub {
 	}
 }
 
+// ---- many principals, resolved, and resolved again ----
+
+type c16ManyCase struct {
+	Kind string `json:"kind"` // ed25519 | rsa
+	N    int    `json:"n"`
+}
+
+func c16ManySub() *engine.Sub {
+	return &engine.Sub{
+		Name:   "many-principals-revisited",
+		Serial: true,
+		Rule:   "n distinct principals of one key type (synthetic public keys) are resolved one after the other (FromPubKey, String, Parse, PubKey, ToPubKey), then all again in the same order and in reverse order: every resolution returns that principal's own key and DID, however many others were resolved in between (n on both sides of 32, 64, 256 and 1024); non-trivial = all",
+		Bound:  func(string) string { return "Ed25519: n in {33, 65, 257, 1100}; RSA-2048: n in {33, 65, 130}" },
+		Gen: func(tier string, emit func(any) bool) {
+			for _, n := range []int{33, 65, 257, 1100} {
+				if !emit(&c16ManyCase{"ed25519", n}) {
+					return
+				}
+			}
+			for _, n := range []int{33, 65, 130} {
+				if !emit(&c16ManyCase{"rsa", n}) {
+					return
+				}
+			}
+		},
+		NewCase: func() any { return &c16ManyCase{} },
+		Run: func(ctx *engine.Ctx, c any) {
+			cs := c.(*c16ManyCase)
+			type prin struct {
+				pub crypto.PubKey
+				s   string
+			}
+			ps := make([]prin, cs.N)
+			for i := range ps {
+				var pub crypto.PubKey
+				var err error
+				if cs.Kind == "rsa" {
+					n := new(big.Int).Lsh(big.NewInt(1), 2047)
+					n.Add(n, big.NewInt(int64(i)*2+1))
+					pkix, e2 := x509.MarshalPKIXPublicKey(&rsa.PublicKey{N: n, E: 65537})
+					if e2 != nil {
+						panic(e2)
+					}
+					pub, err = crypto.UnmarshalRsaPublicKey(pkix)
+				} else {
+					raw := make([]byte, 32)
+					for j := range raw {
+						raw[j] = byte(i*37 + j*11 + i>>5 + 1)
+					}
+					pub, err = crypto.UnmarshalEd25519PublicKey(raw)
+				}
+				if err != nil {
+					panic(err)
+				}
+				d, err := did.FromPubKey(pub)
+				if err != nil {
+					ctx.Failf(cs, "frompubkey-fails/"+cs.Kind, "FromPubKey fails for synthetic %s key #%d: %v", cs.Kind, i, err)
+					return
+				}
+				ps[i] = prin{pub, d.String()}
+			}
+			ctx.States(1)
+			ctx.Nontrivial(1)
+			check := func(pass string, i int) bool {
+				ctx.Eval(2)
+				ctx.Trans(1)
+				d, err := did.Parse(ps[i].s)
+				if err != nil || d.String() != ps[i].s {
+					ctx.Failf(cs, "parse-differs-after-many-principals/"+cs.Kind, "%s pass, principal #%d of %d: Parse returns %v / another DID", pass, i, cs.N, err)
+					return false
+				}
+				pk, err, pan := safePubKey(d)
+				if pan != nil || err != nil || !pk.Equals(ps[i].pub) {
+					ctx.Failf(cs, "pubkey-differs-after-many-principals/"+cs.Kind, "%s pass, principal #%d of %d: PubKey() returns err=%v panic=%v or ANOTHER principal's key", pass, i, cs.N, err, pan)
+					return false
+				}
+				pk2, err, pan := safeToPubKey(ps[i].s)
+				if pan != nil || err != nil || !pk2.Equals(ps[i].pub) {
+					ctx.Failf(cs, "topubkey-differs-after-many-principals/"+cs.Kind, "%s pass, principal #%d of %d: ToPubKey returns err=%v panic=%v or another principal's key", pass, i, cs.N, err, pan)
+					return false
+				}
+				return true
+			}
+			for i := range ps {
+				if !check("first", i) {
+					return
+				}
+			}
+			for i := range ps {
+				if !check("second", i) {
+					return
+				}
+			}
+			for i := len(ps) - 1; i >= 0; i-- {
+				if !check("reverse", i) {
+					return
+				}
+			}
+			ctx.Outcome("all-consistent")
+		},
+	}
+}
+
 func C16() *engine.Check {
 	return &engine.Check{
 		Property: "C16",
 		Level:    "model_checking",
-		Subs:     []*engine.Sub{c16RoundtripSub(), c16RsaSub(), c16KeptSub(), c16CoercedSub(), c16AltSub(), c16StringsSub(), c16ConcSub(), concRaceSub("C16")},
+		Subs:     []*engine.Sub{c16RoundtripSub(), c16RsaSub(), c16ManySub(), c16KeptSub(), c16CoercedSub(), c16AltSub(), c16StringsSub(), c16ConcSub(), concRaceSub("C16")},
 		Assumptions: []string{
 			"keys: committed fixtures plus one key per Generate* call per run; the conversion code has no key-dependent branches except leading-zero coordinates, which the 8 EC fixtures do not force",
 			"the canonical key material is computed independently: compressed SEC1 point for EC keys, raw 32 bytes for Ed25519, PKCS#1 DER for RSA",
